@@ -46,10 +46,38 @@ def implicit_in_indexes(chk, pkg):
     chk.cov["index_level_cases"] = k
 
 
+def lca_downsample(chk, pkg):
+    """`LCA_Database.downsample_scaled` (what `load_databases` applies to every LCA database it is given): after it,
+    signatures / hash assignments / identifiers must equal those of a database built directly at the coarser value,
+    also when sketches had been reconstructed (cached) before, and when the downsample drops nothing (seeded C03c).
+    Reuses the C18 lca stream's `down` flavour (its adapter, driver and relation oracle)."""
+    from streams import lca
+    n = 60 if chk.tier == "quick" else 800
+    cases = [lca.gen_case(chk.rng, "down") for _ in range(n)]
+    res = streamlib.run_cases(lca, cases, pkg, procs=16)
+    k = 0
+    for case, impl, model, crash in res:
+        chk.cov["evaluations"] += 1
+        if crash is not None:
+            chk.add_violation("crash", "C03:lca:adapter-crash", "real code died on an LCA downsample case", {"case": case})
+            continue
+        chk.cov["traces_validated_against_impl"] += 1
+        k += 1
+        for idx, sig, msg in lca.oracle(case, impl):
+            if sig.startswith("skip:") or "downsample" not in sig:
+                continue                                  # everything else is C18's business
+            if sig.startswith("C18:sql-downsample"):
+                continue                                  # known finding C18.3 keeps its C18 identity
+            chk.add_violation("oracle", "C03:lca-downsample:" + sig.split(":", 1)[1], msg,
+                              {"case": case[:idx + 1], "impl": impl[:idx + 1], "op_index": idx})
+    chk.cov["lca_downsample_cases"] = k
+
+
 def extra(chk, pkg):
-    """quick+thorough: index-level implicit downsampling; thorough: the contiguous sweep 1..2^21 on the
-    implementation against the model"""
+    """quick+thorough: index-level implicit downsampling, LCA database downsampling; thorough: the contiguous sweep
+    1..2^21 on the implementation against the model"""
     implicit_in_indexes(chk, pkg)
+    lca_downsample(chk, pkg)
     if chk.tier != "thorough":
         return
     import random
